@@ -35,7 +35,7 @@ PY
 )
 # extra exclusion keys (comma separated) can be given in the environment: EXTRA_EXCL=k1,k2
 if [ -n "$EXTRA_EXCL" ]; then EXCL="${EXCL:+$EXCL,}$EXTRA_EXCL"; fi
-RC_PARAMS="seed=$SEED max_success=$CASES max_size=100" OMP_NUM_THREADS=1 timeout 900 "$T/$H" --sub "$SUB" --out "$T/out" ${EXCL:+--exclude "$EXCL"} > "$T/log" 2>&1
+RC_PARAMS="seed=$SEED max_success=$CASES max_size=${MAXSIZE:-100} $RC_EXTRA" OMP_NUM_THREADS=1 timeout 900 "$T/$H" --sub "$SUB" --out "$T/out" ${EXCL:+--exclude "$EXCL"} > "$T/log" 2>&1
 rc=$?
 if [ $rc -eq 0 ]; then echo "MUTANT-SURVIVED ($CASES cases, sub $SUB)"; else
   echo "MUTANT-KILLED rc=$rc"; grep -a -E "^key |^msg " "$T/out.fail" 2>/dev/null | cut -c1-300; grep -a -E "SUMMARY|runtime error" "$T/log" | head -3 | cut -c1-300; fi
